@@ -348,10 +348,16 @@ def check_alias(ctx):
                             ctx.violation('construct:aliases_caller_lengths', case, 'lengths attribute shares memory with the caller array')
                         Larr[:] = Larr[::-1] + 1
                         for name, obj, want in (('array', A, rows), ('operator result', B, [r * 2 for r in rows])):
-                            if list(obj.lengths) != L or [np.asarray(r).tolist() for r in obj] != [w.tolist() for w in want] or \
-                                    any(obj[i, j] != want[i][j] for i in range(len(L)) for j in range(L[i])):
+                            try:
+                                same = list(obj.lengths) == L and [np.asarray(r).tolist() for r in obj] == [w.tolist() for w in want] \
+                                    and all(obj[i, j] == want[i][j] for i in range(len(L)) for j in range(L[i])) \
+                                    and [np.asarray(r).tolist() for r in (obj + 0)] == [w.tolist() for w in want]
+                                why = 'lengths %r (want %r)' % (list(obj.lengths), L)
+                            except Exception as e:
+                                same, why = False, 'reading it now raises %r' % (e,)
+                            if not same:
                                 ctx.violation('construct:aliases_caller_lengths', case,
-                                              'overwriting the caller lengths array changed the %s: lengths %r (want %r)' % (name, list(obj.lengths), L))
+                                              'overwriting the caller lengths array changed the %s: %s' % (name, why))
                                 break
                 if any(np.shares_memory(b, A._data) for b in bufs):
                     ctx.violation('construct:aliases_caller:%s' % how, case, 'copy-constructed array shares memory with the caller data')
@@ -360,9 +366,12 @@ def check_alias(ctx):
                 if [np.asarray(r).tolist() for r in A] != [r.tolist() for r in rows]:
                     ctx.violation('construct:aliases_caller:%s' % how, case, 'mutating the caller buffer changed the array')
                 # writing into the array must not reach the caller's data either
-                A[0, 0] = -5
-                if any((b == -5).any() for b in bufs):
-                    ctx.violation('construct:write_through:%s' % how, case, 'write reached the caller buffer')
+                try:
+                    A[0, 0] = -5
+                    if any((b == -5).any() for b in bufs):
+                        ctx.violation('construct:write_through:%s' % how, case, 'write reached the caller buffer')
+                except Exception as e:
+                    ctx.violation('construct:aliases_caller:%s' % how, case, 'after the caller changed its own buffers a write raises %r' % (e,))
     ctx.sample({'alias_probe': 'all initial shapes x dtypes x constructors'})
 
 
